@@ -42,9 +42,15 @@ def meta_case(draw):
     edges = [0.1, 0.5, 1.0]
     theta = draw(gen.loguniform(1e-3, 0.2))
     many = draw(st.sampled_from([False, False, True]))  # two-digit patch ids (string vs numeric order)
-    scene = draw(gen.scene_case(theta, edges, 1, min_patches=10 if many else 1, max_patches=14 if many else 6, max_per_patch=3 if many else 6))
+    if draw(st.integers(0, 14)) == 0:
+        # hundreds of patches (three-digit patch ids; counts around the widths of 8/16-bit indices)
+        scene = draw(gen.lattice_scene(draw(st.sampled_from([100, 127, 128, 129, 182, 255, 256, 257, 300]))))
+    else:
+        scene = draw(gen.scene_case(theta, edges, 1, min_patches=10 if many else 1, max_patches=14 if many else 6, max_per_patch=3 if many else 6))
     K = len(scene["centers"])
     mode = draw(st.sampled_from(["centers", "centers", "ids", "num", "catalog"]))  # catalog: patch_centers=<another Catalog>
+    if K >= 100 and mode == "num":
+        mode = "centers"
     perm = draw(st.permutations(list(range(K))))
     # the catalog is looked at as returned, or reopened with several workers whose tasks finish in
     # a tape-chosen order (the accessors are per patch index whatever the loading order was)
@@ -68,7 +74,7 @@ def run_meta(case):
     if s.margin.min() < 1e-12:
         return Result.discard("equidistant-object")
     ra_sorted = bool(np.all(np.diff(centers[:, 0]) >= 0))
-    ck = Checker(K >= 3 and not ra_sorted, classes=[f"mode:{case['mode']}", f"patches:{K if K < 10 else '>=10'}"])
+    ck = Checker(K >= 3 and not ra_sorted, classes=[f"mode:{case['mode']}", f"patches:{K if K < 10 else ('>=10' if K < 100 else '>=100')}"])
     n = s.n
     w = s.w
     rec = np.column_stack([np.asarray(cat["ra"]), np.asarray(cat["dec"])])
